@@ -125,7 +125,8 @@ func (p HopByHopExtensionHeader) ParseHopByHopExtensions() (ext map[int][]byte, 
 		}
 
 		// for IANA option types: see https://www.iana.org/assignments/ipv6-parameters/ipv6-parameters.xhtml
-		t := buffer[0] & 0b00011111 // last 5 bits contain type
+		// RFC 8200 4.2: the option type is the whole octet (two action bits, change bit, five type bits)
+		t := buffer[0]
 		switch t {
 		case 0: // padding 1
 			pos = pos + 1
@@ -139,7 +140,7 @@ func (p HopByHopExtensionHeader) ParseHopByHopExtensions() (ext map[int][]byte, 
 			pos = pos + int(buffer[1]) + 2
 		case 5: // router alert
 			// See https://tools.ietf.org/html/rfc2711
-			if len(buffer) < 4 {
+			if len(buffer) < 4 || buffer[1] != 2 { // type, length 2, 16 bit value
 				fmt.Printf("ip6   : error in router alert option len=%d\n", len(buffer))
 				return nil, ErrParseFrame
 			}
@@ -154,12 +155,18 @@ func (p HopByHopExtensionHeader) ParseHopByHopExtensions() (ext map[int][]byte, 
 				fmt.Printf("ip6   : unexpected router alert value=%d", value)
 			}
 
-		case 194: // jumbo payload
-			pos = pos + 4
+		case 194: // jumbo payload (RFC 2675): type, length 4, 32 bit value
+			if len(buffer) < 6 || buffer[1] != 4 {
+				return nil, ErrParseFrame
+			}
+			pos = pos + 6
 		default:
 			fmt.Printf("ip6   : unexpected hop by hop option type=%d data=\"% x\"\n", t, p.Data())
 			if len(buffer) < 2 {
 				fmt.Printf("ip6   : error in unexpected extension len=%d", len(buffer))
+				return nil, ErrParseFrame
+			}
+			if t>>6 != 0 { // unrecognised option whose action bits say: discard the packet
 				return nil, ErrParseFrame
 			}
 			pos = pos + int(buffer[1]) + 2
